@@ -416,6 +416,7 @@ func (vlog *valueLog) rewrite(bucket uint32, fid uint32) error {
 	}); err != nil && err != utils.ErrStop {
 		return err
 	}
+	verifVlogYield("rewrite.before-reinsert", len(wb))
 
 	batchSize := 1024
 	for i := 0; i < len(wb); {
